@@ -199,7 +199,11 @@ def shrink(line, clause, hbin, dbin, workdir, env=None, max_rounds=40, batch=60)
                 return k
         return None
 
+    import time
+    t_end = time.time() + float(os.environ.get("VERIF_SHRINK_BUDGET_S", "150"))     # shrinking is a convenience: bounded
     for _ in range(max_rounds):
+        if time.time() > t_end:
+            break
         cands = []
         for k, (kind, v) in enumerate(items):
             if kind != "geom":
